@@ -42,4 +42,18 @@ TEXTS["C03"] = dict(
                "log must not grow after a storage call has returned (acknowledged before written); SyncWrites is on for every opened store.",
     level_note=TRUST + " Process-kill semantics only in this layer: the image is the directory at a quiescent instant; page-cache loss (power failure) is not modelled here, "
                "so an fsync that is dropped while the write() still happens is caught only through the SyncWrites option check.")
+TEXTS["C08"] = dict(
+    technique="deterministic simulation: seeded batch shapes x GOMAXPROCS with scheduled scatter workers; independent SSZ signing root + BLS verification per position",
+    level_text="Seeded search over request kind, batch size (1..512) and GOMAXPROCS (1..128), with scatter workers of small batches released in drawn order by the "
+               "scheduler: every signature returned by the real gRPC signer handlers is BLS-verified under the public key of the account addressed at that position over a "
+               "signing root recomputed by an independent merkleiser, and the response must have exactly one entry per request. The same monitor (M2) is active in "
+               "every other simulated run of the suite. Exploration: the property quantifies over inputs x degree of parallelism.",
+    level_note=TRUST + " 'Well-formed' means 32-byte roots and domains; other lengths are C06/C20 territory.")
+TEXTS["C09"] = dict(
+    technique="deterministic simulation: twin instances (batch vs one-at-a-time) on identical seeded histories x GOMAXPROCS; reference model for liveness; exhaustive Scatter partition table",
+    level_text="Seeded histories of well-formed, authorised attestation batches (sizes 1..512 over distinct keys, GOMAXPROCS 1..128, scatter workers scheduled in drawn order) "
+               "go to instance A as batches and entry by entry to an identical twin B: verdict vectors must agree position by position and with the reference model (advancing "
+               "requests below 2^63 are signed: equal consecutive sources, genesis 0/0, values at 2^63-1); the rules wrapper counts evaluations per index (exactly once). "
+               "util.Scatter is enumerated completely for n in [1,600] x GOMAXPROCS in [1,64] (partition check).",
+    level_note=TRUST)
 NOT_APPLICABLE = {}
